@@ -11,6 +11,7 @@ mod p_c09;
 mod p_c11;
 mod p_c12;
 mod p_c13;
+mod p_c14;
 mod p_c15;
 mod p_c16;
 mod p_c17;
@@ -111,6 +112,7 @@ fn main() {
                 "C18" => p_c18::generate(seed, tier, &mut sink),
                 "C17" => p_c17::generate(seed, tier, &mut sink),
                 "C13" => p_c13::generate(seed, tier, &mut sink),
+                "C14" => p_c14::generate(seed, tier, &mut sink),
                 "C06" => p_c06::generate(seed, tier, &mut sink),
                 "C19" => p_c19::generate(seed, tier, &mut sink),
                 _ => {
